@@ -115,16 +115,20 @@ class Facts:
             if crate is None or b.crate == crate:
                 yield b
 
-    def const_literal(self, cid):
-        """If const body `cid` is `_0 = const <literal>; return`, return the literal text."""
+    def const_literal(self, cid, depth=0):
+        """If const body `cid` is `_0 = const <literal>; return`, return the literal text (following `const A: T = B;` aliases)."""
         b = self.bodies.get(cid)
-        if b is None:
+        if b is None or depth > 6:
             return None
         for blk in b.blocks:
             for st in blk["stmts"]:
                 if st["k"] == "assign" and st["lhs"]["l"] == 0 and not st["lhs"]["p"]:
                     rv = st["rv"]
                     if rv["k"] == "use" and rv["op"]["k"] == "const":
+                        if "def" in rv["op"] and "promoted" not in rv["op"] and len(b.blocks) == 1:
+                            r = self.const_literal(rv["op"]["def"], depth + 1)
+                            if r is not None:
+                                return r
                         return rv["op"]["text"]
         return None
 
